@@ -23,9 +23,11 @@
 (* checking, scenario emission) and HelpersTrace.tla (validation of        *)
 (* executions recorded from the real classes).                             *)
 (*                                                                         *)
-(* Encoding.  A cell value is an integer or a string; a string is written  *)
-(* as the sequence of its character codes so that the specification itself *)
-(* defines the order used by sort (TLC has no order on strings).  A lookup *)
+(* Encoding.  A cell of a RowCollector is an integer n, written <<0, n>>,   *)
+(* or a string, written <<1, c1, c2, ...>> with its character codes, so    *)
+(* that the specification itself defines the order used by sort (TLC has   *)
+(* no order on strings) and any two cells can be compared for equality.    *)
+(* Values of a ParameterTable record are plain integers.  A lookup         *)
 (* that may fail returns an option: <<>> (the call raised) or <<value>>.   *)
 (* Positions are 1-based here and 0-based in Python.                       *)
 (*                                                                         *)
@@ -214,7 +216,7 @@ LexLess(s, t) == IF t = <<>> THEN FALSE
                  ELSE IF s = <<>> THEN TRUE
                  ELSE IF s[1] # t[1] THEN s[1] < t[1]
                  ELSE LexLess(Tail(s), Tail(t))
-Less(kind, x, y) == IF kind = "str" THEN LexLess(x, y) ELSE x < y
+Less(kind, x, y) == IF kind = "str" THEN LexLess(Tail(x), Tail(y)) ELSE x[2] < y[2]
 Leq(kind, x, y) == x = y \/ Less(kind, x, y)
 
 (***************************************************************************)
@@ -282,8 +284,8 @@ RCI_Compact(t) == [c |-> t.cols, r |-> t.rows]
 (***************************************************************************)
 RCM_New(mode, cols, kindof) == [mode |-> mode, columns |-> cols, kindof |-> kindof, col |-> [q \in 1..Len(cols) |-> <<>>]]
 \* np.array(value, dtype=data.dtype): a <U1 array takes one character
-RCM_TruncHere(m, name, v) == DevStrTrunc /\ m.mode = "typed" /\ m.kindof[name] = "str" /\ Len(v) > 1
-RCM_Store(m, name, v) == IF RCM_TruncHere(m, name, v) THEN SubSeq(v, 1, 1) ELSE v
+RCM_TruncHere(m, name, v) == DevStrTrunc /\ m.mode = "typed" /\ m.kindof[name] = "str" /\ Len(v) > 2
+RCM_Store(m, name, v) == IF RCM_TruncHere(m, name, v) THEN SubSeq(v, 1, 2) ELSE v
 \* for n, name in enumerate(self._columns): <column name>.append(values[n])   -- raises IndexError at the first missing value
 RCM_AppendRow(m, row) ==
   LET nc == Len(m.columns)  k == Min2(nc, Len(row)) IN
